@@ -377,6 +377,7 @@ func ruleStoreLoadAtomic(c *Ctx, a *cacheAnchors) {
 	n, adopted := 0, 0
 	bad := []string{}
 	strict := []string{}
+	created := []string{}
 	sim := c.P.Simulate(fn, SimConfig{Inline: inlineCache, Init: func(s *Sim, st *State, params []*Term) { hc = params[0] }}, func(pr *PathResult) {
 		n++
 		s := &Sim{P: c.P, Cfg: SimConfig{NoHavoc: true}}
@@ -414,6 +415,23 @@ func ruleStoreLoadAtomic(c *Ctx, a *cacheAnchors) {
 				decodedCreated[e.Val.Key()] = true
 			}
 		}
+		respFields := map[types.Object]bool{}
+		if rn := c.P.NamedType("cache", "HTTPResponse"); rn != nil {
+			if st, ok := rn.Underlying().(*types.Struct); ok {
+				for i := 0; i < st.NumFields(); i++ {
+					respFields[st.Field(i)] = true
+				}
+			}
+		}
+		for _, l := range pr.Conds {
+			l.Atom.walk(func(x *Term) bool {
+				if (x.Op == "fa" || x.Op == "fld") && x.Obj != nil && respFields[x.Obj] {
+					strict = append(strict, fmt.Sprintf("the loader makes adoption depend on the decoded response's %s (%s): responses with an empty body (redirects, 204, answers to HEAD) or any header set are valid records the completions write, and would be thrown away on reload", x.Name, l.String()))
+					return false
+				}
+				return true
+			})
+		}
 		for _, l := range pr.Conds {
 			l.Atom.walk(func(x *Term) bool {
 				if decodedCreated[x.Key()] && !x.IsConst() {
@@ -442,6 +460,10 @@ func ruleStoreLoadAtomic(c *Ctx, a *cacheAnchors) {
 			bad = append(bad, fmt.Sprintf("adopts a record whose expiry %s may be 0 (immortal entry) on path [%s]", prettyTerm(E), condString(pr.Conds)))
 		}
 		if cls == a.stHit {
+			C := s.finalCell(pr.State, hc, a.fCreatedAt)
+			if !decodedCreated[C.Key()] {
+				created = append(created, fmt.Sprintf("adopts a hit but leaves createdAt = %s, not the decoded record's creation time (the restored entry reports a wrong Age) on path [%s]", prettyTerm(C), condString(pr.Conds)))
+			}
 			if k, v := pr.Facts.Decide(eqTerm(R, nilTerm(a.fResponse.Type()))); !(k && !v) && !knownNonNil(R) {
 				bad = append(bad, fmt.Sprintf("adopts a hit whose response %s may be nil on path [%s]", prettyTerm(R), condString(pr.Conds)))
 			}
@@ -455,6 +477,7 @@ func ruleStoreLoadAtomic(c *Ctx, a *cacheAnchors) {
 		c.undecided("load-atomic", name, pos, "no path adopts a record: loader idiom not recognised")
 		return
 	}
+	c.check(len(created) == 0, "loader-restores-age", name, pos, "every adopted hit takes createdAt from the decoded record", strings.Join(uniq(created), " || "), adopted)
 	c.check(len(strict) == 0, "loader-accepts-saved", name, pos, "adopting paths test only status, expiry and (for a hit) the response: every record a completion writes is accepted", strings.Join(uniq(strict), " || "), adopted)
 	if len(bad) > 0 {
 		if len(bad) > 3 {
@@ -479,7 +502,7 @@ func ruleLockedWrapper(c *Ctx, a *cacheAnchors) {
 			bad = append(bad, s)
 		}
 	}
-	sim := c.P.Simulate(fn, SimConfig{Inline: func(callee *ssa.Function, depth int) bool {
+	sim := c.P.Simulate(fn, SimConfig{NoWiden: true, Inline: func(callee *ssa.Function, depth int) bool {
 		return inlineCache(callee, depth) && callee != a.get
 	}}, func(pr *PathResult) {
 		n++
@@ -986,11 +1009,23 @@ func ruleCompletionPaths(c *Ctx, a *cacheAnchors, want map[string]bool) {
 // argAlwaysPositive: at every static call site of F in pike, argument idx has a
 // lower bound >= 1 on every path reaching the call.
 func argAlwaysPositive(p *Program, F *ssa.Function, idx int) (msgs []string, sites int) {
+	// an interface call that F's receiver type can satisfy is a call site too
+	mayDispatch := func(m *types.Func) bool {
+		if m == nil || m.Name() != F.Name() || F.Signature.Recv() == nil {
+			return false
+		}
+		sig, ok := m.Type().(*types.Signature)
+		if !ok || sig.Recv() == nil {
+			return false
+		}
+		it, ok := sig.Recv().Type().Underlying().(*types.Interface)
+		return ok && types.Implements(F.Signature.Recv().Type(), it)
+	}
 	for _, caller := range p.allFuncs {
 		calls := false
 		for _, b := range caller.Blocks {
 			for _, in := range b.Instrs {
-				if ci, ok := in.(ssa.CallInstruction); ok && ci.Common().StaticCallee() == F {
+				if ci, ok := in.(ssa.CallInstruction); ok && (ci.Common().StaticCallee() == F || (ci.Common().IsInvoke() && mayDispatch(ci.Common().Method))) {
 					calls = true
 				}
 			}
@@ -1000,7 +1035,7 @@ func argAlwaysPositive(p *Program, F *ssa.Function, idx int) (msgs []string, sit
 		}
 		sim := p.Simulate(caller, SimConfig{}, func(pr *PathResult) {
 			for _, e := range pr.Events {
-				if (e.Kind == "call" || e.Kind == "defer" || e.Kind == "go") && e.Callee == F && !e.Deferred && idx < len(e.Args) {
+				if (((e.Kind == "call" || e.Kind == "defer" || e.Kind == "go") && e.Callee == F) || (e.Kind == "invoke" && mayDispatch(e.Method))) && !e.Deferred && idx < len(e.Args) {
 					sites++
 					iv := pr.Facts.Interval(e.Args[idx])
 					if iv.Lo == nil || iv.Lo.Sign() < 1 {
